@@ -148,10 +148,12 @@ def occurrences(pats_b, line_b):
 SGR = re.compile(rb"\x1b\[([0-9;]*)m")
 
 
-def parse_sgr(raw):
-    """-> list of (byte, highlighted) ; raises ValueError on a stray ESC"""
+def parse_sgr(raw, attrs=None):
+    """-> list of (byte, highlighted); `attrs` is the SGR state carried over from the bytes printed
+    before (a terminal does not forget colours at a newline); raises ValueError on a stray ESC"""
     out = []
-    attrs = set()
+    if attrs is None:
+        attrs = set()
     i = 0
     while i < len(raw):
         if raw[i] == 0x1B:
@@ -163,9 +165,11 @@ def parse_sgr(raw):
                 if prm in (b"", b"0"):
                     attrs.clear()
                 elif prm == b"39":
-                    attrs = {a for a in attrs if not (a.startswith(b"3") or a.startswith(b"9"))}
+                    for a in [a for a in attrs if a.startswith(b"3") or a.startswith(b"9")]:
+                        attrs.discard(a)
                 elif prm == b"49":
-                    attrs = {a for a in attrs if not a.startswith(b"4")}
+                    for a in [a for a in attrs if a.startswith(b"4")]:
+                        attrs.discard(a)
                 elif prm == b"22":
                     attrs.discard(b"1")
                 else:
@@ -240,9 +244,10 @@ def check_invocation(inv, binary, workdir, use_valgrind=False):
     if len(got_lines) != len(expected):
         return False, "%d lines printed, %d input lines contain a pattern" % (len(got_lines), len(expected)), stats, observed
     base = None
+    sgr_state = set()  # carried across lines, as a terminal would
     for k, (raw, (path, i, lb)) in enumerate(zip(got_lines, expected)):
         try:
-            cells = parse_sgr(raw)
+            cells = parse_sgr(raw, sgr_state)
         except ValueError as e:
             return False, "output line %d: %s" % (k, e), stats, observed
         plain = bytes(c for c, _ in cells)
